@@ -30,7 +30,7 @@ def state_probe(pb):
     sc = max(abs(P), 1e-300)
     eq["closure-inverse.P(rho,e(rho,P))=P"] = E.e8([eos.P(rho, eos.e(rho, P)), -P], sc)
     eq["closure-inverse.e(rho,P(rho,e))=e"] = E.e8([eos.e(rho, P), -e], abs(e))
-    hr, he, hp = 1e-3 * rho, 1e-3 * abs(e), 1e-3 * max(abs(P), 1e-12)
+    hr, he, hp = 1e-3 * rho, 1e-3 * abs(e), 1e-3 * max(abs(P), abs(rho * e))     # P may vanish (stiffened gas in tension): the step follows rho e
     for name, an, fd, s in (
             ("dP_drho", eos.dP_drho(rho, e), d4(lambda x: eos.P(x, e), rho, hr), None),
             ("dP_de", eos.dP_de(rho, e), d4(lambda x: eos.P(rho, x), e, he), None),
@@ -93,6 +93,14 @@ def newton_probe(pb):
     if alu:
         rho0 = float(eos.reference_density); u0 = u0 * 2.0e5
         ic["density"], ic["velocity"] = rho0, u0
+    retuned = pb.get("via") == "retuned"
+    if retuned:
+        # the solver is first used with the class's default constants (same gamma), then the very same EOS object is
+        # re-tuned through its public setters to the constants of this probe
+        import exactpack.solvers.nohblackboxeos.equations_of_state.eos_library as L
+        target = {k: E.qf(v) for k, v in pb["eos"]["k"].items()}
+        eos = getattr(L, pb["eos"]["cls"])(gamma=target["gamma"]) if pb["eos"]["cls"] != "carnahan_starling_eos" else \
+            getattr(L, pb["eos"]["cls"])(gamma=target["gamma"], b=0.02)
     s = NohBlackBoxEos(eos, ic, geometry=sym + 1, rho0=rho0, u0=u0)
     # a physically reasonable starting guess: compression of the corresponding ideal gas, e ~ u0^2/2, D ~ |u0|/2
     g = getattr(eos, "gamma", 5.0 / 3.0)
@@ -100,6 +108,16 @@ def newton_probe(pb):
     if pb["eos"]["cls"] in ("noble_abel_eos", "carnahan_starling_eos"):
         guess_rho = min(guess_rho, 0.6 / eos.b)
     s.set_new_solver_initial_guess([guess_rho, 0.45 * u0 * u0, 0.6 * abs(u0) * (g - 1)] if not alu else [1.2 * rho0, 0.5 * u0 * u0, eos.c_0])
+    if retuned:
+        try:
+            s.solve_jump_conditions()
+        except Exception:
+            pass                      # the first use only serves to give the solver a past
+        if "c_s" in target:
+            eos.set_new_sound_speed(target["c_s"]); eos.set_new_reference_density(target["rho_inf"])
+        if "b" in target:
+            eos.set_new_co_volume(target["b"])
+        s.set_new_solver_initial_guess([guess_rho, 0.45 * u0 * u0, 0.6 * abs(u0) * (g - 1)])
     s.solve_jump_conditions()
     sd = s.solution_data
     if not sd.get("converged", True) if isinstance(sd, dict) else False:
@@ -164,10 +182,10 @@ def run(tier):
         e, p = events[fl["i"] - 1], pbs[fl["i"] - 1]
         for clause in fl["failed"]:
             cfg = {"kind": p["kind"], "fn": p.get("fn", ""), "symmetry": p.get("symmetry", -1), "rho": E.qf(p["rho"]) if "rho" in p else 0.0,
-                   "p0": E.qf(p["p0"]) if "p0" in p else 0.0}
+                   "p0": E.qf(p["p0"]) if "p0" in p else 0.0, "via": p.get("via", "")}
             verdict.fail({"cls": p["eos"]["cls"], "clause": clause, "cfg": cfg}, {"probe": p, "event": e, "clause": clause, "error": info.get(e["tid"])})
     rc = verdict.finish()
-    distinct = {(p["kind"], p["eos"]["cls"], json.dumps(p["eos"]["k"], sort_keys=True), p.get("fn", ""), p.get("symmetry", "")) for p in pbs}
+    distinct = {(p["kind"], p["eos"]["cls"], json.dumps(p["eos"]["k"], sort_keys=True), p.get("fn", ""), p.get("symmetry", ""), p.get("via", "")) for p in pbs}
     cov = {"states": res["distinct"] + tv["states"], "transitions": res["states"] + tv["generated"],
            "traces_validated_against_impl": len(events), "samples": [{"probe": pbs[0], "event": events[0]}],
            "evaluations": len(events), "distinct_nontrivial": len(distinct),
